@@ -36,19 +36,45 @@ var defaultMaxMetadataBytes int64 = 4 * 1024 * 1024 // 4 MiB
 // errNoLink is returned by parseLink() when no Link header is present.
 var errNoLink = errors.New("no Link header in response")
 
-// parseLink returns the URL of the response's "Link" header, if present.
+// parseLink returns the URL of the next page given by the response's "Link"
+// header, if present. A link value whose relation type is given and is not
+// "next" does not lead to the next page and is skipped.
 func parseLink(resp *http.Response) (string, error) {
-	link := resp.Header.Get("Link")
-	if link == "" {
+	header := resp.Header.Get("Link")
+	if header == "" {
 		return "", errNoLink
 	}
-	if link[0] != '<' {
-		return "", fmt.Errorf("invalid next link %q: missing '<'", link)
-	}
-	if i := strings.IndexByte(link, '>'); i == -1 {
-		return "", fmt.Errorf("invalid next link %q: missing '>'", link)
-	} else {
-		link = link[1:i]
+	link := ""
+	for rest := header; ; {
+		rest = strings.TrimLeft(rest, " \t,")
+		if rest == "" {
+			// no link value with the relation type "next"
+			return "", errNoLink
+		}
+		if rest[0] != '<' {
+			return "", fmt.Errorf("invalid next link %q: missing '<'", header)
+		}
+		i := strings.IndexByte(rest, '>')
+		if i == -1 {
+			return "", fmt.Errorf("invalid next link %q: missing '>'", header)
+		}
+		target := rest[1:i]
+		// the parameters end at the first comma outside of a quoted string
+		params := rest[i+1:]
+		rest = ""
+		quoted := false
+		for j := 0; j < len(params); j++ {
+			if params[j] == '"' {
+				quoted = !quoted
+			} else if params[j] == ',' && !quoted {
+				params, rest = params[:j], params[j+1:]
+				break
+			}
+		}
+		if isNextLink(params) {
+			link = target
+			break
+		}
 	}
 
 	linkURL, err := resp.Request.URL.Parse(link)
@@ -56,6 +82,25 @@ func parseLink(resp *http.Response) (string, error) {
 		return "", err
 	}
 	return linkURL.String(), nil
+}
+
+// isNextLink reports whether the link parameters carry the relation type
+// "next", or no relation type at all.
+func isNextLink(params string) bool {
+	for _, param := range strings.Split(params, ";") {
+		name, value, _ := strings.Cut(param, "=")
+		if !strings.EqualFold(strings.TrimSpace(name), "rel") {
+			continue
+		}
+		value = strings.Trim(strings.TrimSpace(value), `"`)
+		for _, relType := range strings.Fields(value) {
+			if strings.EqualFold(relType, "next") {
+				return true
+			}
+		}
+		return false
+	}
+	return true
 }
 
 // limitReader returns a Reader that reads from r but stops with EOF after n
